@@ -78,6 +78,7 @@ func c12Gen(seed uint64, run int, tier string) *Case {
 			c.Cfg["badframe"] = 1
 			c.Cfg["badsize"] = int64(r.Pick(0, 1, 4, 6, -1, -2, -3, -4)) // negative: relative to msize (-1: msize+1, -2: 8*msize+1, -3: 2^32-1, -4: 2^31)
 			c.Cfg["badbody"] = int64(r.Pick(0, 0, 50, 5000))
+			c.Cfg["badcut"] = int64(r.Pick(0, 0, 0, 5, 6)) // only the first 5 or 6 bytes of the bad frame arrive, then the peer waits
 			c.Cfg["badtype"] = int64(r.Pick(Tclunk, Tclunk, Tversion, Tversion, Tflush, Tattach, Rclunk)) // the size rule is for every frame, whatever type it claims
 			if c.Cfg["cmsize"] < 24 {
 				c.Cfg["cmsize"] = 256
@@ -722,6 +723,13 @@ func (st *c12Sys) badFrame(sc, by *SConn, nm int64, byReply **Recvd) {
 		for len(b) < body+7 {
 			b = append(b, 0x55)
 		}
+	}
+	if cut := int(c.cfg("badcut")); cut > 0 && len(b) > cut && (sz < 7 || sz > uint32(nm)) {
+		if sz < 7 && int(sz) > cut {
+			cut = int(sz) // an undersize frame, complete as announced (a server may wait for the bytes it was promised)
+		}
+		b = b[:cut] // the size field is complete: that is all it takes to know
+		x.Probe("bad-size-with-an-incomplete-header")
 	}
 	peer.WriteRaw(b)
 	rt.YieldUntil(rt.SiteActor, func() bool { return peer.EOF })
